@@ -1,10 +1,12 @@
 /-
   Cases for C04 (semantic validation, projection `codes` = sorted set of error codes).
-  Every program is printed, compiled by the real compiler and compared with `validate`; in addition the model is
-  compared with the specification on every program (`K` lines: accepted ⇎ WellFormed, or a reported code whose
-  rule is not violated).
+  Every program is printed, compiled by the real compiler and compared with `validateFull` (Model/Pipeline.lean: the
+  phases of `validate` plus the parser's E017 for bases / underlying types that are not names, the alias gate and the
+  interface-inheritance check of `detect_cycles`); in addition the model is compared with the specification on every
+  program (`K` lines: accepted ⇎ well-formed, or a reported code whose rule is not violated; the three rules that
+  `validateFull` adds are decided here by closures over the alias / inheritance graphs, not by the mirrors of the code).
 -/
-import SlicecVerif.Model.Validate
+import SlicecVerif.Model.Pipeline
 import SlicecVerif.Drv.Prog
 
 namespace Slicec.Drv.C04
@@ -44,18 +46,48 @@ def gapLabel (P : Program) : String :=
   else if ruleFails (placementRule true) P || ruleFails (repeatRule true) P then "D-04b-unvisited-typeref-attributes"
   else "model-accepts-ill-formed"
 
-def emit (o : Out) (fam : String) (P : Program) (style : Nat := 0) (seed : Nat := 0) : IO Unit := do
+/-- the three rules `validateFull` adds to `validate`, decided independently of the mirrors of the code: the shape of bases and
+    underlying types directly; "no alias leads into a loop of anonymous types" by the closure over the alias graph
+    (`Cyc.anonLoopAliases`, valid on programs whose references resolve); "no interface inherits from itself" by the
+    reachability closure over the inheritance graph (`Cyc.onCycle`) -/
+structure FullRules where
+  shape : Bool
+  aliases : Bool
+  inheritance : Bool
+
+def fullRules (P : Program) : FullRules :=
+  let ig := Cyc.igraphOfProgram P
+  { shape := shapeB P
+    aliases := (Cyc.anonLoopAliases P).isEmpty
+    inheritance := (Cyc.onCycle (Cyc.igEdges ig) ig.length).isEmpty }
+
+/-- sorted multiset of codes, `-` when empty: the projection `allcodes` of the `compile` engine (no lints in these programs) -/
+def allCodesProjection (cs : List String) : String :=
+  let s := sortStrings cs
+  if s.isEmpty then "-" else ",".intercalate s
+
+/-- `multiset`: also compare the number of times each code is reported (only for programs on which the model is exact in that
+    respect: one E017 per offending base / underlying type, one E019 per alias, one E032 per interface and per containment
+    cycle when there is at most one) -/
+def emit (o : Out) (fam : String) (P : Program) (style : Nat := 0) (seed : Nat := 0) (multiset : Bool := false) : IO Unit := do
   let texts := P.map fun f => (render style seed (fileItems f)).1
-  let cs := validate P
+  let cs := validateFull P
   o.line (compileCase fam "codes" "-" texts (codesProjection cs))
+  if multiset then
+    o.line (compileCase (fam ++ "#n") "allcodes" "-" texts (allCodesProjection cs))
   let hex := "|".intercalate (texts.map hexOfString)
-  let wf := decide (WellFormed P)
+  let wfOld := decide (WellFormed P)
+  let fr := fullRules P
+  let wf := wfOld && fr.shape && fr.aliases && fr.inheritance
   if cs.isEmpty && !wf then
-    o.line (tab ["K", gapLabel P, fam, hex, "the program is accepted (no error code) although it violates a rule of the specification"])
+    o.line (tab ["K", (if wfOld then "model-accepts-ill-formed" else gapLabel P), fam, hex,
+      "the program is accepted (no error code) although it violates a rule of the specification"])
   if !cs.isEmpty && wf then
     o.line (tab ["K", "model-rejects-well-formed", fam, hex, "the program satisfies every rule but is rejected with " ++ codesProjection cs])
   for c in cs.eraseDups do
-    if !decide (Violates c P) then
+    let violated := decide (Violates c P) || (c == code "TypeMismatch" && !fr.shape) ||
+      (c == code "SelfReferentialTypeAliasNeedsConcreteType" && !fr.aliases) || (c == code "InfiniteSizeCycle" && !fr.inheritance)
+    if !violated then
       o.line (tab ["K", "code-without-violation", fam, hex, "code " ++ c ++ " is reported but no rule it belongs to is violated"])
 
 /-! ### the rule catalogue: every entry is a list of definitions using names with the given suffix -/
@@ -406,8 +438,212 @@ def attributesFamily (o : Out) : IO Unit := do
   emit o "attributes-alias" [file [.alias [] [] "T" (tr (.prim .bool) false [a0 "cs::a" []]), .alias [] [] "U" (tr (.named "T") false [a0 "cs::a" []]),
                                str "S" [fld "x" (tr (.named "U") false [a0 "cs::a" []])]]]
 
+
+/-! ### the three checks `validateFull` adds to `validate`: families that pin WHICH phase reports them -/
+
+def seqT (e : TRef) (opt : Bool := false) : TRef := tr (.seq e) opt
+def dictT (k v : TRef) (opt : Bool := false) : TRef := tr (.dict k v) opt
+def resT (s f : TRef) (opt : Bool := false) : TRef := tr (.result s f) opt
+def ali (name : String) (ty : TRef) : Def := .alias [] [] name ty
+
+/-- type references that are not written as a name: every primitive, every anonymous form, each also optional, with local
+    attributes, with names / unknown names inside -/
+def nonNameForms : List (String × TRef) :=
+  (Prim.all.map fun p => (p.kw, pt p)) ++ (Prim.all.map fun p => (p.kw ++ "-opt", pt p true)) ++
+  [("seq", seqT (pt .bool)), ("seq-opt", seqT (pt .bool) true),
+   ("dict", dictT (pt .int32) (pt .bool)), ("dict-opt", dictT (pt .int32) (pt .bool) true),
+   ("result", resT (pt .bool) (pt .string)), ("result-opt", resT (pt .bool) (pt .string) true),
+   ("seq-seq", seqT (seqT (pt .bool))), ("seq-of-optional", seqT (pt .bool true)),
+   ("dict-bad-key", dictT (pt .float32) (pt .bool)),
+   ("seq-of-name", seqT (nm "J")), ("dict-of-names", dictT (nm "J") (nm "J")), ("result-of-unknown", resT (nm "NoSuchType") (pt .bool)),
+   ("seq-of-self", seqT (nm "I")),
+   ("attr-bool", tr (.prim .bool) false [a0 "cs::x" []]), ("attr-seq", tr (.seq (pt .bool)) false [a0 "cs::x" ["a"]]),
+   ("deprecated-bool", tr (.prim .bool) false [a0 "deprecated" []]), ("unknown-attr-seq", tr (.seq (pt .bool)) false [a0 "foo" []])]
+
+/-- one violation of a known phase, with names that do not clash with each other: (label, definitions) -/
+def phaseErrors : List (String × List Def) :=
+  [("shape-base-prim", [ifc "Q1" [] [pt .bool]]),
+   ("shape-base-seq", [ifc "Q2j" [], ifc "Q2" [] [nm "Q2j", seqT (pt .bool)]]),
+   ("shape-base-two", [ifc "Q3" [] [pt .string true, dictT (pt .bool) (pt .bool)]]),
+   ("shape-underlying-seq", [enm "Q4" [enr "A"] (some (seqT (pt .bool)))]),
+   ("shape-underlying-result-opt", [enm "Q5" [enr "A"] (some (resT (pt .bool) (pt .bool) true))]),
+   ("parse-tag", [str "P1" [fld "a" (pt .bool true) (some (lit (-1)))]]),
+   ("parse-tuple", [ifc "P2" [op "o" [] (.tuple [par "a" (pt .bool)])]]),
+   ("parse-literal", [enm "P3" [enr "A" (some (lit 170141183460469231731687303715884105728))]]),
+   ("attr-unknown", [str "P4" [] false [a0 "foo" []]]),
+   ("attr-argcount", [str "P5" [] false [a0 "deprecated" ["a", "b"]]]),
+   ("resolve-unknown", [str "P6" [fld "x" (nm "NoSuchType")]]),
+   ("resolve-mismatch", [ifc "P7i" [], str "P7" [fld "x" (nm "P7i")]]),
+   ("resolve-alias-cycle", [ali "P8" (nm "P8")]),
+   ("resolve-base-struct", [str "P9s" [], ifc "P9" [] [nm "P9s"]]),
+   ("alias-gate-seq", [ali "G1" (seqT (nm "G1"))]),
+   ("alias-gate-two", [ali "G2" (dictT (pt .int32) (nm "G3")), ali "G3" (resT (pt .bool) (nm "G2"))]),
+   ("inherit-self", [ifc "H1" [] [nm "H1"]]),
+   ("inherit-two-ops", [ifc "H2" [op "o"] [nm "H3"], ifc "H3" [op "o"] [nm "H2"]]),
+   ("containment", [str "C1" [fld "x" (nm "C1")]]),
+   ("containment-two", [str "C2" [fld "x" (seqT (nm "C3"))], enm "C3" [enr "A" none (some [fld "y" (nm "C2" true)])]]),
+   ("redefinition", [str "R1" [], str "R1" []]),
+   ("redefinition-field", [str "R2" [fld "x" (pt .bool), fld "x" (pt .bool)]]),
+   ("visitor-tag", [str "V1" [fld "a" (pt .bool) (some (lit 1))]]),
+   ("visitor-enum-empty", [enm "V2" []]),
+   ("visitor-key", [str "V3" [fld "d" (dictT (pt .float32) (pt .bool))]]),
+   ("visitor-alias-optional", [ali "V4" (pt .bool true)]),
+   ("visitor-shadow", [ifc "V5a" [op "o"], ifc "V5" [op "o"] [nm "V5a"]]),
+   ("visitor-attr-placement", [str "V6" [] false [a0 "oneway" []]]),
+   ("visitor-underlying-string", [enm "V7" [enr "A"] (some (pt .string))]),
+   ("none", [str "OK1" [fld "a" (pt .bool)], ifc "OK2j" [], ifc "OK2" [] [nm "OK2j" true]])]
+
+def noModule (defs : List Def) : SFile := { fileAttrs := [], module := none, defs := defs }
+
+/-- aliases that contain themselves through anonymous types, and acyclic look-alikes: (label, definitions, exact multiplicities?) -/
+def aliasLoopEntries : List (String × List Def) :=
+  [("seq", [ali "A" (seqT (nm "A"))]),
+   ("seq-of-optional", [ali "A" (seqT (nm "A" true))]),
+   ("optional-seq", [ali "A" (seqT (nm "A") true)]),
+   ("dict-key", [ali "A" (dictT (nm "A") (pt .bool))]),
+   ("dict-value", [ali "A" (dictT (pt .string) (nm "A"))]),
+   ("dict-both", [ali "A" (dictT (nm "A") (nm "A"))]),
+   ("result-success", [ali "A" (resT (nm "A") (pt .bool))]),
+   ("result-failure", [ali "A" (resT (pt .bool) (nm "A"))]),
+   ("nested", [ali "A" (seqT (seqT (nm "A")))]),
+   ("nested-mixed", [ali "A" (dictT (pt .int32) (resT (seqT (nm "A")) (pt .bool)))]),
+   ("global-name", [ali "A" (seqT (nm "::M::A"))]),
+   ("qualified-name", [ali "A" (seqT (nm "M::A"))]),
+   ("two", [ali "A" (seqT (nm "B")), ali "B" (seqT (nm "A"))]),
+   ("two-direct-link", [ali "A" (seqT (nm "B")), ali "B" (nm "A")]),
+   ("two-direct-link-first", [ali "A" (nm "B"), ali "B" (seqT (nm "A"))]),
+   ("three", [ali "A" (seqT (nm "B")), ali "B" (dictT (pt .int32) (nm "C")), ali "C" (resT (nm "A") (nm "A"))]),
+   ("user-of-loop", [ali "A" (seqT (nm "A")), ali "C" (seqT (nm "A"))]),
+   ("link-to-loop", [ali "A" (seqT (nm "A")), ali "C" (nm "A"), ali "D" (nm "C")]),
+   ("loop-and-clean", [ali "A" (seqT (nm "A")), ali "N" (seqT (pt .string)), ali "P" (resT (nm "N") (nm "N"))]),
+   ("used-by-struct", [ali "A" (seqT (nm "A")), str "S" [fld "a" (nm "A")]]),
+   ("used-by-operation", [ali "A" (resT (nm "A") (pt .bool)), ifc "I" [op "o" [par "a" (nm "A")] (.single none false (nm "A"))]]),
+   ("used-as-key", [ali "A" (seqT (nm "A")), str "S" [fld "d" (dictT (nm "A") (pt .bool))]]),
+   ("declared-after-use", [str "S" [fld "a" (nm "A")], ali "A" (seqT (nm "A"))]),
+   -- acyclic look-alikes: accepted
+   ("ok-diamond", [ali "N" (seqT (pt .string)), ali "P" (resT (nm "N") (nm "N")), ali "Q" (dictT (pt .int32) (nm "P"))]),
+   ("ok-chain", [ali "A" (seqT (nm "B")), ali "B" (seqT (nm "C")), ali "C" (pt .bool)]),
+   ("ok-through-struct", [ali "A" (seqT (nm "S")), str "S" [fld "a" (pt .bool)]]),
+   ("ok-same-shape-twice", [ali "A" (seqT (pt .bool)), ali "B" (seqT (pt .bool)), str "S" [fld "a" (nm "A"), fld "b" (nm "B")]]),
+   -- a containment cycle THROUGH an alias is not an alias loop: E032 from the containment detector
+   ("struct-through-alias", [ali "A" (seqT (nm "S")), str "S" [fld "a" (nm "A")]])]
+
+/-- inheritance graphs: (label, definitions) -/
+def inheritEntries : List (String × List Def) :=
+  [("self", [ifc "I" [] [nm "I"]]),
+   ("self-with-op", [ifc "I" [op "o"] [nm "I"]]),
+   ("self-global-name", [ifc "I" [] [nm "::M::I"]]),
+   ("self-optional", [ifc "I" [] [nm "I" true]]),
+   ("self-twice", [ifc "I" [] [nm "I", nm "I"]]),
+   ("two", [ifc "A" [] [nm "B"], ifc "B" [] [nm "A"]]),
+   ("two-with-ops", [ifc "A" [op "a"] [nm "B"], ifc "B" [op "b"] [nm "A"]]),
+   ("two-same-op", [ifc "A" [op "o"] [nm "B"], ifc "B" [op "o"] [nm "A"]]),
+   ("three", [ifc "A" [] [nm "B"], ifc "B" [] [nm "C"], ifc "C" [] [nm "A"]]),
+   ("three-reversed-order", [ifc "C" [] [nm "A"], ifc "B" [] [nm "C"], ifc "A" [] [nm "B"]]),
+   ("through-alias", [ali "T" (nm "I"), ifc "I" [] [nm "T"]]),
+   ("through-alias-chain", [ali "T" (nm "U"), ali "U" (nm "I"), ifc "I" [] [nm "T"]]),
+   ("two-through-aliases", [ali "TA" (nm "A"), ali "TB" (nm "B"), ifc "A" [] [nm "TB"], ifc "B" [] [nm "TA"]]),
+   ("tail", [ifc "I" [] [nm "I"], ifc "K" [] [nm "I"], ifc "L" [op "o"] [nm "K"]]),
+   ("second-base", [ifc "J" [], ifc "I" [] [nm "J", nm "I"]]),
+   ("diamond-with-loop", [ifc "A" [] [nm "D"], ifc "B" [] [nm "A"], ifc "C" [] [nm "A"], ifc "D" [] [nm "B", nm "C"]]),
+   ("two-loops", [ifc "A" [] [nm "A"], ifc "B" [] [nm "C"], ifc "C" [] [nm "B"]]),
+   -- acyclic: accepted
+   ("ok-diamond", [ifc "A" [op "o"], ifc "B" [] [nm "A"], ifc "C" [] [nm "A"], ifc "D" [op "p"] [nm "B", nm "C"]]),
+   ("ok-chain", [ifc "A" [], ifc "B" [] [nm "A"], ifc "C" [] [nm "B"]]),
+   ("ok-base-declared-later", [ifc "B" [] [nm "A"], ifc "A" []]),
+   ("ok-same-base-twice", [ifc "A" [], ifc "B" [] [nm "A", nm "A"]]),
+   ("ok-through-alias", [ifc "A" [], ali "T" (nm "A"), ifc "B" [] [nm "T"]]),
+   ("ok-optional-base", [ifc "A" [], ifc "B" [] [nm "A" true]])]
+
+def pipelineFamily (o : Out) (tier : Tier) : IO Unit := do
+  -- 1. bases and underlying types that are not names, in every written form
+  for (n, r) in nonNameForms do
+    emit o ("pipeline/shape-base/" ++ n) [file [ifc "J" [], ifc "I" [] [r]]] 0 0 true
+    emit o ("pipeline/shape-base/" ++ n) [file [ifc "J" [], ifc "I" [op "o"] [nm "J", r]]] 0 0 true
+    emit o ("pipeline/shape-base/" ++ n) [file [ifc "J" [], ifc "I" [] [r, nm "J"]]] 0 0 true
+    emit o ("pipeline/shape-base/" ++ n) [file [ifc "J" [], ifc "I" [] [r, nm "NoSuchType"]]] 0 0 true
+    emit o ("pipeline/shape-base/" ++ n) [file [ifc "J" [], ifc "I" [] [r, r]]] 0 0 true
+    emit o ("pipeline/shape-base-no-module/" ++ n) [noModule [ifc "J" [], ifc "I" [] [r]]] 0 0 true
+    -- underlying types: anonymous forms are the parser's (E017), primitives and `?` are the visitor's (E009 / E007)
+    emit o ("pipeline/shape-underlying/" ++ n) [file [ifc "J" [], enm "E" [enr "A"] (some r)]] 0 0 true
+    emit o ("pipeline/shape-underlying/" ++ n) [file [ifc "J" [], enm "E" [enr "A" none (some [fld "x" (pt .bool)])] (some r) false true]]
+    emit o ("pipeline/shape-underlying-no-module/" ++ n) [noModule [enm "E" [enr "A"] (some r)]] 0 0 true
+  -- names in the same positions: the parser lets them through; resolution, the inheritance check and the visitor decide
+  for (n, r) in [("interface", nm "J"), ("interface-opt", nm "J" true), ("unknown", nm "NoSuchType"), ("struct", nm "S"),
+                 ("alias-of-interface", nm "TJ"), ("alias-of-sequence", nm "TS"), ("alias-of-uint8", nm "TU"), ("alias-of-uint8-opt", nm "TU" true),
+                 ("self", nm "I"), ("enum", nm "E")] do
+    -- (an alias of an interface is itself a type mismatch: it is declared only where it is used)
+    let helpers := [ifc "J" [], str "S" [], ali "TS" (seqT (pt .bool)), ali "TU" (pt .uint8)] ++
+      (if n == "alias-of-interface" then [ali "TJ" (nm "J")] else [])
+    emit o ("pipeline/name-base/" ++ n) [file (helpers ++ [ifc "I" [] [r]])] 0 0 true
+    emit o ("pipeline/name-underlying/" ++ n) [file (helpers ++ [enm "E" [enr "A"] (some r)])] 0 0 true
+  -- 2. alias loops, alone (with the number of reports), split over two files / modules, without module
+  for (n, ds) in aliasLoopEntries do
+    emit o ("pipeline/alias-loop/" ++ n) [file ds] 0 0 true
+    emit o ("pipeline/alias-loop/" ++ n) [file ds.reverse] 0 0 true
+    emit o ("pipeline/alias-loop-no-module/" ++ n) [noModule ds] 0 0 true
+    if ds.length ≥ 2 then
+      emit o ("pipeline/alias-loop-two-files/" ++ n) [file (ds.take 1), file (ds.drop 1)] 0 0 true
+      emit o ("pipeline/alias-loop-two-files/" ++ n) [file (ds.drop 1), file (ds.take 1)] 0 0 true
+  emit o "pipeline/alias-loop-two-modules" [file [ali "A" (seqT (nm "N::B"))] "M", file [ali "B" (seqT (nm "M::A"))] "N"] 0 0 true
+  emit o "pipeline/alias-loop-two-modules" [file [ali "B" (seqT (nm "::M::A"))] "N", file [ali "A" (dictT (pt .int32) (nm "::N::B"))] "M"] 0 0 true
+  emit o "pipeline/alias-loop-two-modules" [file [ali "A" (seqT (nm "B::A"))] "M", file [ali "A" (seqT (nm "M::A"))] "M::B"] 0 0 true
+  emit o "pipeline/alias-loop-two-modules" [file [ali "A" (seqT (nm "A"))] "M", file [ali "A" (seqT (pt .bool)), str "S" [fld "a" (nm "A")]] "N"] 0 0 true
+  -- 3. inheritance loops, alone (with the number of reports), split over two files / modules
+  for (n, ds) in inheritEntries do
+    emit o ("pipeline/inherit/" ++ n) [file ds] 0 0 true
+    emit o ("pipeline/inherit/" ++ n) [file ds.reverse] 0 0 true
+    emit o ("pipeline/inherit-no-module/" ++ n) [noModule ds] 0 0 true
+    if ds.length ≥ 2 then
+      emit o ("pipeline/inherit-two-files/" ++ n) [file (ds.take 1), file (ds.drop 1)] 0 0 true
+      emit o ("pipeline/inherit-two-files/" ++ n) [file (ds.drop 1), file (ds.take 1)] 0 0 true
+    -- together with a containment cycle: the same phase, both are reported
+    emit o ("pipeline/inherit-and-containment/" ++ n) [file (ds ++ [str "S" [fld "s" (nm "S" true)]])] 0 0 true
+    emit o ("pipeline/inherit-and-containment/" ++ n) [file [str "S" [fld "s" (seqT (nm "S"))]], file ds] 0 0 true
+  emit o "pipeline/inherit-two-modules" [file [ifc "A" [] [nm "N::B"]] "M", file [ifc "B" [] [nm "M::A"]] "N"] 0 0 true
+  emit o "pipeline/inherit-two-modules" [file [ifc "I" [] [nm "B::I"]] "M", file [ifc "I" [] [nm "M::I"]] "M::B"] 0 0 true
+  emit o "pipeline/inherit-two-modules" [file [ifc "I" [] [nm "I"]] "M::B", file [ifc "I" []] "M"] 0 0 true
+  emit o "pipeline/inherit-two-modules" [file [ifc "I" []] "M", file [ifc "I" [] [nm "::M::I"]] "M::B"] 0 0 true
+  -- 4. phase order: every ordered pair of violations, in one file and in two files; one of the two files without module
+  for (n1, d1) in phaseErrors do
+    for (n2, d2) in phaseErrors do
+      let fam := n1 ++ "+" ++ n2
+      emit o ("pipeline/pair-one-file/" ++ fam) [file (d1 ++ d2)]
+      emit o ("pipeline/pair-two-files/" ++ fam) [file d1, file d2 "N"]
+      emit o ("pipeline/pair-first-without-module/" ++ fam) [noModule d1, file d2 "N"]
+  -- 5. triples across the phases the three checks sit between (thorough: all; quick: a diagonal)
+  let core := phaseErrors.filter fun e => ["shape-base-prim", "shape-underlying-seq", "parse-tag", "attr-unknown", "resolve-unknown",
+    "alias-gate-seq", "inherit-self", "containment", "redefinition", "visitor-tag", "none"].contains e.1
+  let mut k := 0
+  for (n1, d1) in core do
+    for (n2, d2) in core do
+      for (n3, d3) in core do
+        k := k + 1
+        if tier == .thorough || k % 7 == 0 then
+          emit o ("pipeline/triple/" ++ n1 ++ "+" ++ n2 ++ "+" ++ n3) [file d1 "M", file d2 "N", file d3 "M::K"]
+
+/-- the three checks of `validateFull` as catalogue entries (injected into the generated programs like every other rule) -/
+def pipelineEntries : List Entry :=
+  [⟨"base-primitive", fun s => [ifc ("I" ++ s) [] [pt .bool]]⟩,
+   ⟨"base-sequence-second", fun s => [ifc ("J" ++ s) [], ifc ("I" ++ s) [op "o"] [nm ("J" ++ s), seqT (pt .bool)]]⟩,
+   ⟨"base-optional-result", fun s => [ifc ("I" ++ s) [] [resT (pt .bool) (pt .bool) true]]⟩,
+   ⟨"base-optional-name-ok", fun s => [ifc ("J" ++ s) [], ifc ("I" ++ s) [] [nm ("J" ++ s) true]]⟩,
+   ⟨"underlying-dictionary", fun s => [enm ("E" ++ s) [enr "A"] (some (dictT (pt .bool) (pt .bool)))]⟩,
+   ⟨"underlying-optional-sequence", fun s => [enm ("E" ++ s) [enr "A"] (some (seqT (pt .uint8) true))]⟩,
+   ⟨"alias-loop-sequence", fun s => [ali ("T" ++ s) (seqT (nm ("T" ++ s)))]⟩,
+   ⟨"alias-loop-dictionary-key", fun s => [ali ("T" ++ s) (dictT (nm ("T" ++ s)) (pt .bool))]⟩,
+   ⟨"alias-loop-two", fun s => [ali ("T" ++ s) (resT (pt .bool) (nm ("U" ++ s))), ali ("U" ++ s) (dictT (pt .int32) (nm ("T" ++ s)))]⟩,
+   ⟨"alias-loop-used", fun s => [ali ("T" ++ s) (seqT (nm ("T" ++ s) true)), str ("S" ++ s) [fld "a" (nm ("T" ++ s))]]⟩,
+   ⟨"alias-diamond-ok", fun s => [ali ("N" ++ s) (seqT (pt .string)), ali ("T" ++ s) (resT (nm ("N" ++ s)) (nm ("N" ++ s)))]⟩,
+   ⟨"inherit-self", fun s => [ifc ("I" ++ s) [] [nm ("I" ++ s)]]⟩,
+   ⟨"inherit-two", fun s => [ifc ("A" ++ s) [op "a"] [nm ("B" ++ s)], ifc ("B" ++ s) [op "b"] [nm ("A" ++ s)]]⟩,
+   ⟨"inherit-three", fun s => [ifc ("A" ++ s) [] [nm ("B" ++ s)], ifc ("B" ++ s) [] [nm ("C" ++ s)], ifc ("C" ++ s) [] [nm ("A" ++ s)]]⟩,
+   ⟨"inherit-tail", fun s => [ifc ("K" ++ s) [] [nm ("I" ++ s)], ifc ("I" ++ s) [] [nm ("I" ++ s)]]⟩,
+   ⟨"inherit-diamond-ok", fun s => [ifc ("A" ++ s) [], ifc ("B" ++ s) [] [nm ("A" ++ s)], ifc ("C" ++ s) [] [nm ("A" ++ s)],
+                                     ifc ("D" ++ s) [] [nm ("B" ++ s), nm ("C" ++ s)]]⟩]
+
 def catalogue : List Entry :=
-  tagEntries ++ enumEntries ++ keyEntries ++ streamEntries ++ shadowEntries ++ nameEntries ++ miscEntries ++
+  tagEntries ++ enumEntries ++ keyEntries ++ streamEntries ++ shadowEntries ++ nameEntries ++ miscEntries ++ pipelineEntries ++
   (Place.all.flatMap fun pl => builtins.flatMap fun d => [0, 1, 2].map fun n =>
     (⟨"attr-" ++ d ++ "-" ++ toString n ++ "-on-" ++ pl.name,
       fun s => match pl with
@@ -462,6 +698,7 @@ def genC04 (tier : Tier) (seed : Nat) (o : Out) : IO Unit := do
   emit o "catalogue/cycle-hides-redefinition" [file [str "A" [fld "b" (nm "B")], str "B" [fld "a" (nm "A")], str "A" []]]
   emit o "catalogue/redefinition-hides-visitor" [file [str "S" [fld "a" (pt .bool) (some (lit 1))], str "S" []]]
   -- 2. bounded-exhaustive small-scope families
+  pipelineFamily o tier
   membersFamily o
   streamsFamily o
   keysFamily o tier
